@@ -42,13 +42,21 @@ var (
 // knownClasses: property/oracle/class of confirmed genuine defects of the
 // unchanged tree. Only consulted in lenient mode.
 //
-// The list is EMPTY now: every defect found on first contact (D1 zero-filled
-// truncated input, D2 non-canonical big integers, D3 declared length
-// preallocated, D4 nil interface in pkg/scale, D5/D6 trie node decoder panics)
-// has been fixed in /repo, so every class is an ordinary violation again in
-// every mode. The switch stays for the next first contact: add
-// "Cxx/<oracle>/<class>" (or a prefix ending in *) here.
-var knownClasses = map[string]bool{}
+// Everything else found on first contact (D1 zero-filled truncated integers,
+// D2 non-canonical big integers, D4 nil interface in pkg/scale, D5/D6 trie node
+// decoder panics) has been fixed in /repo and is an ordinary violation again in
+// every mode. Entries are "Cxx/<oracle>/<class>" or a prefix ending in *.
+var knownClasses = map[string]bool{
+	// K1/K2 (kept in /repo because a pinned RPC test needs them): pkg/scale
+	// decodeBytes zero-fills a truncated byte string and makes the declared length
+	// before reading. The same classes are registered in known_findings.json with
+	// "continue": true; listing them here only makes VERIF_BYTES_LENIENT=1 behave
+	// the same on a tree or findings file where they are not.
+	"C12/reencode/truncated-byte-string-zero-filled":            true,
+	"C12/alloc/alloc-byte-string-declared-length-preallocated":  true,
+	"C33/alloc/alloc-byte-string-declared-length-preallocated:*": true,
+	"C07/alloc/alloc-byte-string-declared-length-preallocated:*": true,
+}
 
 func known(prop, oracle, class string) bool {
 	if knownClasses[prop+"/"+oracle+"/"+class] {
